@@ -723,6 +723,7 @@ func (h *hist) opAList(mail, backend string, fs []string) {
 		obs["status"] = -1 // long poll (nothing pending): the client gave up after 3 s
 	}
 	obs["owner"] = ownerBefore
+	obs["tracker_age_after_s"] = h.trackerAge(backend)
 	h.emit(map[string]interface{}{"op": "alist", "ident": mail, "backend": backend, "faults": fs}, obs)
 }
 
@@ -1018,6 +1019,22 @@ func (h *hist) groundTruth() []map[string]interface{} {
 	return out
 }
 
+// trackerAge: seconds since the backend's tracker was last written (-1: no tracker)
+func (h *hist) trackerAge(backend string) float64 {
+	nowMicros := time.Now().UnixNano() / 1000
+	for _, en := range h.e.api.Entities("backendTracker") {
+		if en.Name == backend {
+			return float64(nowMicros-en.Int["LastSeen"]) / 1e6
+		}
+	}
+	return -1
+}
+
+func (h *hist) opWait(ms int) {
+	time.Sleep(time.Duration(ms) * time.Millisecond)
+	h.emit(map[string]interface{}{"op": "wait", "ms": ms}, map[string]interface{}{})
+}
+
 func (h *hist) endUserOf(backend string) string {
 	for _, en := range h.backends() {
 		if en.Name == backend {
@@ -1218,7 +1235,31 @@ func (h *hist) scriptGetCache() {
 	h.opARespond(ag0, "b0", h.lastK(), 800, 200, false, []string{})
 }
 
-var scripts = []func(*hist){(*hist).scriptBothWritesFail, (*hist).scriptCronBetween, (*hist).scriptSizes, (*hist).scriptAccessMatrix, (*hist).scriptRouting, (*hist).scriptGetCache}
+// script 6: an agent's poll refreshes the liveness of its backend (trackers close to the end of the window)
+func (h *hist) scriptRefresh() {
+	h.e.api.Reset()
+	h.posts = map[int][]byte{}
+	h.opAdd("b0", "admin", ag0, us0, []string{"/"}, []string{})
+	h.opAdd("b1", "admin", ag0, "allUsers", []string{"/s/"}, []string{})
+	h.opSeen("b0", "live")
+	h.opSeen("b1", "live")
+	h.opUStart(us0, "POST", "/r0", 400, []string{}, false)
+	h.opUStart("u1@example.com", "POST", "/s/r1", 400, []string{}, false)
+	h.ages("b0", 297)
+	h.ages("b1", 200)
+	h.opAList(ag0, "b0", []string{}) // refreshes b0
+	h.opWait(4000)
+	h.opUStart(us0, "POST", "/r2", 400, []string{}, false)               // b0 polled 4 s ago: live (297 s + 4 s would not be)
+	h.opUStart("u1@example.com", "POST", "/s/r3", 400, []string{}, false) // b1 seen 204 s ago: live
+}
+
+// ages sets a tracker to an exact age in seconds (reported to the model as a `seen` operation)
+func (h *hist) ages(id string, seconds int64) {
+	ok := h.e.api.SetTimeProperty("backendTracker", id, "LastSeen", time.Now().Add(-time.Duration(seconds)*time.Second).UnixNano()/1000)
+	h.emit(map[string]interface{}{"op": "seen", "id": id, "age": "exact", "age_s": seconds}, map[string]interface{}{"applied": ok})
+}
+
+var scripts = []func(*hist){(*hist).scriptBothWritesFail, (*hist).scriptCronBetween, (*hist).scriptSizes, (*hist).scriptAccessMatrix, (*hist).scriptRouting, (*hist).scriptGetCache, (*hist).scriptRefresh}
 
 // ---------------------------------------------------------------- fixed scenarios
 
